@@ -83,7 +83,9 @@ class C04Src(SrcWorld, RetryMixin):
             evs.append(("ackeof", m["proc"]["pdu"]["cond"]))
             if m["nnak"] < 2 and self.c["size"] > 0:
                 evs.append(("nak", ((0, min(2, self.c["size"])),)))  # a retransmission request is not an acknowledgement
-        if m["ncancel"] < 1 and st.S.h.state.name == "BUSY" and m["phase"] in ("pre", "eof"):
+        if step == "WAITING_FOR_FINISHED" and m["phase"] == "acked" and m["nnak"] < 2 and self.c["size"] > 0:
+            evs.append(("nak", ((0, min(2, self.c["size"])),)))  # the receiver re-requests data after it acknowledged the EOF
+        if m["ncancel"] < 1 and st.S.h.state.name == "BUSY" and m["phase"] in ("pre", "eof", "acked"):
             evs.append(("cancel", "right"))
         if clock.next_expiry(st.S.h) is not None:
             evs += [("expire",), ("advance",)]
